@@ -92,6 +92,8 @@ class C19(Prop):
                     c.update(fkind="string", kind=dtype, feature=vals, enum=enum)
                 c["n_bins"] = rng.randint(2, 6)
                 c["method"] = rng.choice(["quantile", "uniform", "sturges"])
+                if rng.random() < 0.2:
+                    c["fname"] = "model"
             yield c
 
     def impl(self, case):
@@ -126,7 +128,8 @@ class C19(Prop):
                    "elsewhere": len(fresh_axes.other.get_lines()) + len(fresh_axes.other.collections)}
             if case["stream"] == "bias":
                 df = compute_bias(y, P, feature=feat, weights=w, functional=case["f"], level=case["level"], n_bins=case["n_bins"], bin_method=case["method"])
-                out["table"] = [{"model": r.get("model"), "f": r["f"], "mean": r["bias_mean"]} for r in df.iter_rows(named=True)]
+                fname = case.get("fname", "f")
+                out["table"] = [{"model": r.get("model_" if fname == "model" else "model"), "f": r[fname], "mean": r["bias_mean"]} for r in df.iter_rows(named=True)]
         except Exception as e:
             out = {"err": exc_class(e), "msg": str(e)[:200]}
         finally:
